@@ -14,7 +14,7 @@ From Coq Require Import List NArith Bool String.
 From JV.lib Require Import Bytes.
 From JV.gen Require Import DirectiveTables TagName.
 From JV.model Require Import ScannerSem Core TagTitle Catalog.
-From JV.proofs Require Import CatalogProofs FaithfulProofs FaithfulExamples LocalityProofs LocalityExamples.
+From JV.proofs Require Import CatalogProofs FaithfulProofs FaithfulExamples LocalityProofs OrderProofs FrameProofs InsertProofs LocalityExamples.
 Import ListNotations.
 Open Scope N_scope.
 
@@ -110,3 +110,85 @@ Theorem locality_example :
     (exists e, ex_build ((ex_full_forest ++ [ex_new_server]) ++ [ex_new_server]) = CErr e /\ ce_kind e = CEMsg "duplicate names"%string).
 Proof. exact LocalityExamples.locality_example. Qed.
 Print Assumptions locality_example.
+
+(* ======================================================================================= *)
+(* clause (b): a childless declaration at an ARBITRARY top-level position (proofs/FrameProofs.v,
+   InsertProofs.v).  Each theorem is an equivalence; read from left to right it is INSERTION, read from right
+   to left it is REMOVAL of a declaration: the project with the declaration is accepted iff the project
+   without it is accepted (and the name is given and not used), and the two catalogs differ by exactly that
+   entry, which stands where the declaration stands among the entries of its collection.
+
+   The frame facts behind them (FrameProofs.v): no step except SERVER / BaseUrl reads or writes the servers;
+   no step except TYPE reads or writes the user types; no step at all reads or writes the enums. *)
+
+Theorem steps_do_not_touch_servers : forall bt banned S t anc b,
+  dk t <> KServer -> dk t <> KBaseURL ->
+  add_directive bt banned t anc (set_srv S b) = cmap (set_srv S) (add_directive bt banned t anc b).
+Proof. exact add_directive_srv. Qed.
+Print Assumptions steps_do_not_touch_servers.
+
+Theorem steps_do_not_touch_types : forall bt banned S t anc b,
+  dk t <> KType ->
+  add_directive bt banned t anc (set_typ S b) = cmap (set_typ S) (add_directive bt banned t anc b).
+Proof. exact add_directive_typ. Qed.
+Print Assumptions steps_do_not_touch_types.
+
+Theorem steps_do_not_touch_enums : forall bt banned S t anc b,
+  add_directive bt banned t anc (set_enum S b) = cmap (set_enum S) (add_directive bt banned t anc b).
+Proof. exact add_directive_enum. Qed.
+Print Assumptions steps_do_not_touch_enums.
+
+(* SERVER anywhere.  Hypothesis srv_step_ok n over the trees AFTER the position: no later SERVER is named n
+   and no later BaseUrl stands under a directive named n; it is decidable, and in a forest that respects the
+   context table it follows from n being new (a BaseUrl stands under a SERVER, and a second SERVER named n
+   is rejected).  l1 = the servers declared before the position (their names: server_names of those trees). *)
+Theorem server_inserted : forall pp bt banned first a t b c',
+  tree_kids t = [] -> dk t = KServer -> kind_in KServer banned = false ->
+  let n := named (tree_dir t) (bs "Name") in
+  let e := (n, {| s_annot := d_annot (tree_dir t); s_base := [] |}) in
+  (forall p, In p (positions_all b) -> srv_step_ok n (fst p) (snd p)) ->
+  (build pp bt banned ((first :: a) ++ t :: b) = COk c' <->
+   exists c l1 l2, build pp bt banned ((first :: a) ++ b) = COk c /\ n <> [] /\ ~ In n (map fst (c_servers c)) /\
+     c_servers c = l1 ++ l2 /\ map fst l1 = server_names (positions_all (first :: a)) /\
+     c' = upd_servers c (l1 ++ e :: l2)).
+Proof. exact server_inserted_lemma. Qed.
+Print Assumptions server_inserted.
+
+(* TYPE anywhere (skeleton level).  typ_step_ok n: no later TYPE is named n (follows from n being new). *)
+Theorem type_inserted : forall pp bt banned first a t b c',
+  tree_kids t = [] -> dk t = KType -> kind_in KType banned = false ->
+  let d := tree_dir t in let n := named d (bs "Name") in
+  (forall p, In p (positions_all b) -> typ_step_ok n (fst p) (snd p)) ->
+  (build pp bt banned ((first :: a) ++ t :: b) = COk c' <->
+   exists c nt l1 l2, build pp bt banned ((first :: a) ++ b) = COk c /\ n <> [] /\ ~ In n (map fst (c_types c)) /\
+     norm_notation (named d (bs "SchemaNotation")) = Some nt /\
+     ((beq nt (bs "jsight") || beq nt (bs "regex")) && (match d_body d with None => true | Some _ => false end)) = false /\
+     c_types c = l1 ++ l2 /\ map fst l1 = type_names (positions_all (first :: a)) /\
+     c' = upd_types c (l1 ++ (n, {| ut_annot := d_annot d; ut_notation := nt; ut_schema := schema_of d |}) :: l2)).
+Proof. exact type_inserted_lemma. Qed.
+Print Assumptions type_inserted.
+
+(* ENUM (with a body) anywhere: no side hypothesis at all *)
+Theorem enum_inserted : forall pp bt banned first a t b c',
+  tree_kids t = [] -> enum_node t = true -> kind_in KEnum banned = false ->
+  let n := named (tree_dir t) (bs "Name") in
+  (build pp bt banned ((first :: a) ++ t :: b) = COk c' <->
+   exists c, build pp bt banned ((first :: a) ++ b) = COk c /\ n <> [] /\ ~ In n (map fst (c_enums c)) /\
+     c' = upd_enums c (map enum_entry (filter enum_node ((first :: a) ++ t :: b)))).
+Proof. exact enum_inserted_lemma. Qed.
+Print Assumptions enum_inserted.
+
+(* NOT DONE: TAG at an arbitrary position (under "no automatic tag and no Tags directive uses the name"): it
+   needs the analogue of step_srel for the tag collection through tags_for / tags_from_directive / Description
+   under TAG; the collect stage is tag_appended_partial. *)
+
+Theorem insertion_example :
+  exists c c1 c2 c3,
+    ex_build ex_full_forest = COk c /\
+    ex_build (ex_mid 2 ex_new_server) = COk c1 /\ map fst (c_servers c1) = [bs "@s2"; bs "@s"] /\
+    c1 = upd_servers c (c_servers c1) /\
+    ex_build (ex_mid 4 ex_new_type) = COk c2 /\ map fst (c_types c2) = [bs "@dog"; bs "@cat"] /\
+    ex_build (ex_mid 7 ex_new_enum) = COk c3 /\ c_enums c3 = [(bs "@e", []); (bs "@e2", bs "two")] /\
+    c3 = upd_enums c (c_enums c3).
+Proof. exact LocalityExamples.insertion_example. Qed.
+Print Assumptions insertion_example.
